@@ -441,6 +441,7 @@ class State:
         self.cover = []
         self.statics = {}  # name -> Cell
         self.bytes_cache = {}
+        self.facts = Facts()  # z3 ast id -> bool: conditions known to be implied / refuted by pc on this path
         self.pos = 0  # statement index to resume at inside the current block
         self.dlog = []  # summary decisions taken so far in the current statement
         self.end = None
@@ -458,6 +459,7 @@ class State:
         s.cover = list(self.cover)
         s.pos = self.pos
         s.dlog = list(self.dlog)
+        s.facts = self.facts.fork()
         s.bytes_cache = {k: clone_cell(c, memo) for k, c in self.bytes_cache.items()}
         s.statics = {k: clone_cell(c, memo) for k, c in self.statics.items()}
         for fr in self.frames:
@@ -468,6 +470,41 @@ class State:
                 nf.dest = (clone_cell(d[0], memo), d[1])
             s.frames.append(nf)
         return s
+
+
+class Facts:
+    """layered dict (copy-on-fork): layers are frozen and shared between the
+    states created by a fork; each state writes into its own top dict"""
+
+    __slots__ = ("top", "layers")
+
+    def __init__(self, layers=()):
+        self.top = {}
+        self.layers = layers
+
+    def get(self, k):
+        v = self.top.get(k)
+        if v is not None:
+            return v
+        for l in reversed(self.layers):
+            v = l.get(k)
+            if v is not None:
+                return v
+        return None
+
+    def __setitem__(self, k, v):
+        self.top[k] = v
+
+    def fork(self):
+        if self.top:
+            self.layers = self.layers + (self.top,)
+            self.top = {}
+        if len(self.layers) > 24:
+            merged = {}
+            for l in self.layers:
+                merged.update(l)
+            self.layers = (merged,)
+        return Facts(self.layers)
 
 
 class Loc:
@@ -498,6 +535,7 @@ class Stats:
         self.checks = 0
         self.check_queries = 0
         self.max_depth = 0
+        self.fact_hits = 0
 
 
 class Machine:
@@ -546,7 +584,7 @@ class Machine:
             self.solver.add(c)
             cur.append(c)
 
-    def check_sat(self, pc, extra=None):
+    def check_sat(self, pc, extra=None, want_model=True):
         """-> 'sat' | 'unsat' | 'unknown' (and leaves the model available)"""
         self.sync(pc)
         t0 = time.time()
@@ -555,11 +593,11 @@ class Machine:
             self.solver.push()
             self.solver.add(extra)
             r = self.solver.check()
-            self._last_model = self.solver.model() if r == z3.sat else None
+            self._last_model = self.solver.model() if (want_model and r == z3.sat) else None
             self.solver.pop()
         else:
             r = self.solver.check()
-            self._last_model = self.solver.model() if r == z3.sat else None
+            self._last_model = self.solver.model() if (want_model and r == z3.sat) else None
         self.stats.solver_s += time.time() - t0
         if r == z3.sat:
             return "sat"
@@ -567,14 +605,33 @@ class Machine:
             return "unsat"
         return "unknown"
 
+    def fact_key(self, cond):
+        if z3.is_not(cond):
+            return cond.arg(0).get_id(), False
+        return cond.get_id(), True
+
+    def learn(self, st, cond, value=True):
+        """record that `cond` has truth value `value` on this path"""
+        if isinstance(cond, bool):
+            return
+        k, pol = self.fact_key(cond)
+        st.facts[k] = ((value == pol), cond)  # keep the AST alive: ids of freed ASTs are reused
+
     def feasible(self, st, cond):
         if cond is True:
             return True
         if cond is False:
             return False
-        r = self.check_sat(st.pc, cond)
+        k, pol = self.fact_key(cond)
+        known = st.facts.get(k)
+        if known is not None:
+            self.stats.fact_hits += 1
+            return known[0] == pol
+        r = self.check_sat(st.pc, cond, want_model=False)
         if r == "unknown":
             raise Unsupported("solver returned unknown on a branch condition")
+        if r == "unsat":
+            st.facts[k] = ((not pol), cond)
         return r == "sat"
 
     def model_values(self):
@@ -618,13 +675,15 @@ class Machine:
             st.dlog.append(v)
             return v
         t = self.feasible(st, cond)
-        f = self.feasible(st, z3.Not(cond))
+        f = self.feasible(st, z3.Not(cond)) if t else True
         if t and f:
             raise ForkRequest([(cond, True), (simp(z3.Not(cond)), False)])
         if t:
+            self.learn(st, cond, True)
             st.dlog.append(True)
             return True
         if f:
+            self.learn(st, cond, False)
             st.dlog.append(False)
             return False
         raise PathEnd("infeasible")
@@ -1985,18 +2044,23 @@ class Machine:
                 feas.append((c, act))
         if not feas:
             raise PathEnd("infeasible")
+        if len(feas) == 1 and feas[0][0] is not True:
+            # the only feasible alternative is implied by the path condition
+            self.learn(st, feas[0][0], True)
         if len(feas) > 1:
             self.stats.forks += len(feas) - 1
             for c, act in feas[1:]:
                 s2 = st.clone()
                 if c is not True:
                     s2.pc.append(c)
+                    self.learn(s2, c, True)
                 s2.depth += 1
                 s2.decisions.append(str(act))
                 self.apply_action(s2, act, queued=True)
         c, act = feas[0]
         if c is not True and len(feas) > 1:
             st.pc.append(c)
+            self.learn(st, c, True)
             st.depth += 1
         self.apply_action(st, act, queued=False)
 
@@ -2041,6 +2105,7 @@ class Machine:
                     s2 = st.clone()
                     if c is not None and c is not True:
                         s2.pc.append(c)
+                        self.learn(s2, c, True)
                     s2.forced = prefix + [val]
                     s2.depth += 1
                     s2.decisions.append("sum:%s" % (val,))
@@ -2048,6 +2113,7 @@ class Machine:
                 c, val = fk.alts[0]
                 if c is not None and c is not True:
                     st.pc.append(c)
+                    self.learn(st, c, True)
                 st.forced = prefix + [val]
                 st.depth += 1
 
